@@ -63,7 +63,7 @@ def main (args : List String) : IO UInt32 := do
     pure 0
   | ["l2", fam, seed, from_, count] =>
     let lawful := fam == "lawRun"
-    if !["cmpRun", "lawRun", "cloneRun", "opsRun", "debugRun", "defaultRun"].contains fam then
+    if !["cmpRun", "lawRun", "cloneRun", "opsRun", "debugRun", "defaultRun", "fwdRun"].contains fam then
       IO.eprintln s!"unknown l2 family {fam}"; return 2
     let seed := seed.toNat!
     let from_ := from_.toNat!
@@ -92,6 +92,10 @@ def main (args : List String) : IO UInt32 := do
           let c := genDefaultRunCase seed i
           let (b, e) := defaultRunProgram c m
           (c, b, e)
+        else if fam == "fwdRun" then
+          let c := genFwdRunCase seed i
+          let (b, e) := fwdRunProgram c m
+          (c, b, e)
         else
           let c := genCmpRunCase lawful seed i
           let (b, e) := cmpRunProgram lawful c m
@@ -103,7 +107,7 @@ def main (args : List String) : IO UInt32 := do
       stats := stats ++ ((if fam != "cmpRun" && fam != "lawRun" then c.tags else cmpRunStats c).map (fun t => s!"STAT {m} {t}"))
       stats := stats ++ [s!"SRC {m} {rustItem c}".replace "\n" " "]
     out.putStrLn "PROGRAM"
-    out.putStr (if fam == "cloneRun" || fam == "opsRun" then l2PreludeBasic else if fam == "debugRun" || fam == "defaultRun" then l2PreludeFmt
+    out.putStr (if fam == "cloneRun" || fam == "opsRun" then l2PreludeBasic else if fam == "debugRun" || fam == "defaultRun" then l2PreludeFmt else if fam == "fwdRun" then l2PreludeFwd
                 else if lawful then l2PreludeLawful else l2Prelude)
     for p in progs.reverse do out.putStr p
     out.putStrLn ("fn main() { " ++ " ".intercalate (mods.reverse.map fun m => m ++ "::run();") ++ " }")
